@@ -8,7 +8,7 @@ from vlib import render as RR
 
 ID = "C06"
 # look-alikes of prelude names (vlib/defs.py HOSTILE) this check's derives are immune to on the unchanged tree
-HOSTILE_OK = ['Default', 'From', 'Into', 'Result', 'Option', 'Some', 'Ok', 'Iterator', 'Clone', 'AsRef', 'Send', 'PhantomData', 'IterGet', 'm_matches', 'm_assert', 'm_fmt', 'c_binders', 'no_implicit_prelude']
+HOSTILE_OK = ['Default', 'From', 'Into', 'Result', 'Option', 'Some', 'Ok', 'Iterator', 'Clone', 'AsRef', 'Send', 'PhantomData', 'IterGet', 'm_matches', 'm_assert', 'm_fmt', 'c_binders', 'no_implicit_prelude', 'ByValue']
 PROP_FILE = "Props/C06.v"
 THEOREMS = ["C06_iff", "C06_none", "C06_roundtrip", "C06_const", "C06_total", "C06_program", "C06_program_complete", "C06_repr_scan", "C06_nonvacuous"]
 RULE = ("definitions: repr type x explicit/implicit discriminant shapes (negative, gapped, descending, expression-valued) "
@@ -184,6 +184,12 @@ def build_corpus(tier, rng):
             it = Item("E", vs, repr=rp)
             it.via_macro = idents
             add(it, "via-macro")
+    # the USER's own conversions from the repr type next to the derive: `impl TryFrom<R> for E` / `impl From<R> for E` written by hand (what FromRepr
+    # is documented NOT to emit) coexist with the generated inherent from_repr (seed C06_r16)
+    for j, rp in enumerate((None, "u8", "i16", "u8")):
+        ui = Item("E", [mk_variant("Nop", "unit", False), mk_variant("Load", "unit", j % 2 == 1, 4 if rp else None), mk_variant("Store", "unit", False)], repr=rp)
+        ui.user_impl = "TryFrom" if j < 2 else "From"
+        add(ui, "user-conversions")
     # no variant carries data, but the enum has CONST parameters: from_repr is still a const fn
     for rp in (None, "u8", "i32"):
         add(Item("E", [mk_variant("Empty", "unit", False), mk_variant("Taken", "unit", False, 4), mk_variant("Off", "unit", True), mk_variant("Locked", "unit", False)],
@@ -217,6 +223,10 @@ def render_def(k, it, meta, cfg):
     src = [render_item(it, ["strum::FromRepr", "Debug", "PartialEq"], bounds="Default" if (it.tparams and not getattr(it, "targ", None)) else "")]
     src.append(RR.vobs_fn(it))
     ty = it.repr or "usize"
+    if getattr(it, "user_impl", None) == "TryFrom":
+        src.append("impl std::convert::TryFrom<%s> for E { type Error = (); fn try_from(x: %s) -> Result<E, ()> { E::from_repr(x).ok_or(()) } }" % (ty, ty))
+    elif getattr(it, "user_impl", None) == "From":
+        src.append("impl From<%s> for E { fn from(x: %s) -> E { E::from_repr(x).unwrap_or(E::%s) } }" % (ty, ty, it.variants[0].ident))
     E = RR.turbofish(it)
     fieldless = all(v.kind == "unit" for v in it.variants) and it.tparams == 0 and it.variants
     if meta.get("const"):
